@@ -13,7 +13,7 @@ TWO_PROFILE=" C01 C02 C03 C04 C05 C06 C07 C08 C09 C10 C11 C12 C13 C14 C15 C16 C1
 RELCHECK_BIN="$ROOT/target/relcheck/mqv"
 RELEASE_BIN="$ROOT/target/release/mqv"
 DEV_BIN="$ROOT/target/devcheck/mqv"
-DEEP_IDS=" C03 C16 C17 C18 "
+DEEP_IDS=" C01 C03 C16 C17 C18 "
 
 build() { # $1 = profile
   local log="work/build-$1-$$.log"
